@@ -22,6 +22,9 @@ def run(ctx):
     for k in range(4):
         jobs.append((binary, hooks, seeds[42 + k], (2000, 500, 5000, 0)[k] if hooks else 0, (None, 4, None, 2)[k],
                      "stormpw" if k == 2 else None, 30 if ctx.quick else 200, ctx.quick, ["claim", "claim", "claim", "rename"]))
+    # W12: PRIVMSG's activity update under lock contention (3 s of idling per round)
+    jobs.append((binary, hooks, seeds[39], 0, None, None, 2 if ctx.quick else 8, ctx.quick, ["idle"]))
+    jobs.append((binary, hooks, seeds[38], 0, 2, None, 2 if ctx.quick else 8, ctx.quick, ["idle"]))
     # W11: queries answered in several lines while the names asked about change hands
     jobs.append((binary, hooks, seeds[46], 0, None, None, 3 if ctx.quick else 20, ctx.quick, ["queries"]))
     jobs.append((binary, hooks, seeds[47], 0, 2, None, 2 if ctx.quick else 10, ctx.quick, ["queries"]))
@@ -77,7 +80,9 @@ def run(ctx):
                 "receiver that reads nothing, then it sends PING and reads: the PONG must come before 97 % of the backlog "
                 "(its own commands are served while messages wait), nothing lost, per sender in order; W11 ten connections flip "
                 "between two nicknames each while observers ask ISON / USERHOST about all of them with lists long enough for "
-                "several reply lines: every line of one answer shows the same state, one name of each pair; "
+                "several reply lines: every line of one answer shows the same state, one name of each pair; W12 a sender idle for 4 s sends one "
+                "PRIVMSG while four connections keep the state lock busy with OPER checks: WHOIS then counts its idle time "
+                "from that message (both halves of the handler took effect); "
                 "distinct = workload classes; evidence lists distinct winners and reconstructed orders")
     res.floor("rounds", res.evaluations, 400 if ctx.quick else 2000)
     res.floor("distinct_orders_and_interleavings", orders, 4)
